@@ -24,6 +24,25 @@ func noSendAfterClose(c *Ctx) {
 			n++
 			if _, isDefer := ci.(*ssa.Defer); isDefer {
 				c.ok("close/"+c.fnName(f)+"/"+chanName(ci.Common().Args[0])+"/deferred", c.ipos(ci), "the close is deferred: it runs after the function's last send")
+				// a worker's deferred close is registered before the worker can return: its consumer's `range` / receive
+				// ends only with that close (an exit taken before the defer statement leaves the consumer waiting for good)
+				if c.goTargets()[f] {
+					db := ci.Block()
+					var guardFrom, guardTo *ssa.BasicBlock
+					if db != f.Blocks[0] {
+						if p := db.Idom(); p != nil && blockIf(p) != nil && len(p.Succs) == 2 {
+							for k, sx := range p.Succs {
+								if sx == db {
+									guardFrom, guardTo = p, p.Succs[1-k]
+								}
+							}
+						}
+					}
+					hit, path := reachFromE(f.Blocks[0], 0, isReturn, func(in ssa.Instruction) bool { return in == ci.(ssa.Instruction) }, func(from, to *ssa.BasicBlock) bool {
+						return from == guardFrom && to == guardTo
+					})
+					c.check(hit == nil, "close/"+c.fnName(f)+"/"+chanName(ci.Common().Args[0])+"/registered-before-any-exit", c.ipos(ci), "no exit of the worker precedes the registration of its deferred close", "the worker can return before its deferred close is registered: the consumer of the channel then waits for a close that never comes", c.pathStr(path)...)
+				}
 				continue
 			}
 			ch := ci.Common().Args[0]
